@@ -1,6 +1,7 @@
 import MuduoVerif.Proofs.Calendar
 import MuduoVerif.Proofs.Zone
 import MuduoVerif.Proofs.Inet
+import MuduoVerif.Proofs.SysSkelTie
 /-!
 # C20 — calendar, time-zone and address conversions round-trip and agree with their specification
 
@@ -300,5 +301,53 @@ theorem be_roundtrip (x : Nat) :
 
 /-- non-vacuity of the calendar hypotheses: a leap day in range -/
 example : validDate 2024 2 29 ∧ inRange 2024 2 ∧ jdnMin ≤ 2460370 ∧ tMin ≤ 0 := by decide
+
+/-! ## T1, the address functions -/
+
+/-- T1, the text conversions of `InetAddress` are the library calls `Model/Inet.lean` models, with the port converted by
+the byte-order helpers.  In /repo's current sources (`Generated/SysSkel.lean`, re-extracted on every run;
+`Proofs/SysSkelTie.lean`): `InetAddress::toIpPort` / `toIp` are `sockets::toIpPort` / `sockets::toIp` on the own address;
+`sockets::toIp` dispatches on the family and is glibc's `inet_ntop(AF_INET | AF_INET6, ..)` (`Inet.toIp`);
+`sockets::toIpPort` appends `":%u"` of `networkToHost16(port)` behind that text (`Inet.toIpPort`) and, for `AF_INET6`,
+wraps it as `'[' .. "]:%u"` (`Inet.v6IpPort`); `sockets::fromIpPort` sets the family, stores `hostToNetwork16(port)` and is
+glibc's `inet_pton` (`Inet.parseIp`), a text that does not parse is only logged; `InetAddress(ip, port)` zeroes the
+structure and takes the IPv6 branch iff asked for or the text contains `':'`; `InetAddress(port, loopbackOnly, ipv6)`
+stores family, address and port in network order; `port()` is `networkToHost16` of the stored port; the six `Endian.h`
+helpers are glibc's `__bswap_16/32/64` (`Inet.bswap`: `be_roundtrip`).  What `inet_ntop` / `inet_pton` / `snprintf`
+compute stays an assumption (`Model/Inet.lean`), compared with glibc's and Python's answers in the differential run. -/
+theorem inet_text_conversions_tied :
+    Gen.SysSkel.inetToIpPort = SysSkel.Decl.inetToIpPort ∧
+    Gen.SysSkel.inetToIp = SysSkel.Decl.inetToIp ∧
+    Gen.SysSkel.socketsToIpPort = SysSkel.Decl.socketsToIpPort ∧
+    Gen.SysSkel.socketsToIp = SysSkel.Decl.socketsToIp ∧
+    Gen.SysSkel.fromIpPort4 =
+      [.act (.store "addr.sin_family" "2"), .act (.store "addr.sin_port" "sockets::hostToNetwork16(port)"),
+       .act (.sys "inet_pton" "2, ip, &addr.sin_addr"), .ite "<result> <= 0" [.act (.log .syserr)] []] ∧
+    Gen.SysSkel.fromIpPort6 =
+      [.act (.store "addr.sin6_family" "10"), .act (.store "addr.sin6_port" "sockets::hostToNetwork16(port)"),
+       .act (.sys "inet_pton" "10, ip, &addr.sin6_addr"), .ite "<result> <= 0" [.act (.log .syserr)] []] ∧
+    Gen.SysSkel.inetCtorIpPort = SysSkel.Decl.inetCtorIpPort ∧
+    Gen.SysSkel.inetCtorPort = SysSkel.Decl.inetCtorPort ∧
+    Gen.SysSkel.inetCtorIn = [.act (.store "addr_" "addr")] ∧
+    Gen.SysSkel.inetCtorIn6 = [.act (.store "addr6_" "addr")] ∧
+    Gen.SysSkel.inetSetSockAddrInet6 = [.act (.store "addr6_" "addr6")] ∧
+    Gen.SysSkel.inetFamily = [.act (.ret "addr_.sin_family")] ∧
+    Gen.SysSkel.inetGetSockAddr = [.act (.ret "sockets::sockaddr_cast(&addr6_)")] ∧
+    Gen.SysSkel.inetPortNetEndian = [.act (.ret "addr_.sin_port")] ∧
+    Gen.SysSkel.inetPort = [.act (.ret "sockets::networkToHost16(portNetEndian())")] ∧
+    Gen.SysSkel.inetIpv4NetEndian = [.act (.assertion "family() == 2"), .act (.ret "addr_.sin_addr.s_addr")] ∧
+    Gen.SysSkel.hostToNetwork16 = [.act (.ret "__bswap_16(host16)")] ∧
+    Gen.SysSkel.hostToNetwork32 = [.act (.ret "__bswap_32(host32)")] ∧
+    Gen.SysSkel.hostToNetwork64 = [.act (.ret "__bswap_64(host64)")] ∧
+    Gen.SysSkel.networkToHost16 = [.act (.ret "__bswap_16(net16)")] ∧
+    Gen.SysSkel.networkToHost32 = [.act (.ret "__bswap_32(net32)")] ∧
+    Gen.SysSkel.networkToHost64 = [.act (.ret "__bswap_64(net64)")] :=
+  ⟨SysSkel.skeleton_inetToIpPort, SysSkel.skeleton_inetToIp, SysSkel.skeleton_socketsToIpPort, SysSkel.skeleton_socketsToIp,
+   SysSkel.skeleton_fromIpPort4, SysSkel.skeleton_fromIpPort6, SysSkel.skeleton_inetCtorIpPort, SysSkel.skeleton_inetCtorPort,
+   SysSkel.skeleton_inetCtorIn, SysSkel.skeleton_inetCtorIn6, SysSkel.skeleton_inetSetSockAddrInet6,
+   SysSkel.skeleton_inetFamily, SysSkel.skeleton_inetGetSockAddr, SysSkel.skeleton_inetPortNetEndian,
+   SysSkel.skeleton_inetPort, SysSkel.skeleton_inetIpv4NetEndian, SysSkel.skeleton_hostToNetwork16,
+   SysSkel.skeleton_hostToNetwork32, SysSkel.skeleton_hostToNetwork64, SysSkel.skeleton_networkToHost16,
+   SysSkel.skeleton_networkToHost32, SysSkel.skeleton_networkToHost64⟩
 
 end MuduoVerif.C20
